@@ -464,6 +464,10 @@ class Interp:
         if isinstance(a, EmptyArr) or isinstance(b, EmptyArr):
             return EmptyArr()
         if isinstance(a, Cols) or isinstance(b, Cols):
+            if isinstance(a, Vec2):
+                a = Cols([a.x, a.y])
+            if isinstance(b, Vec2):
+                b = Cols([b.x, b.y])
             if isinstance(a, Cols) and isinstance(b, Cols):
                 if len(a.cols) != len(b.cols):
                     raise Unsupported("column count mismatch")
@@ -820,7 +824,7 @@ class Interp:
                 return base.cols[c]
             if isinstance(base, Index2) and c in (0, 1):
                 return base.c0 if c == 0 else base.c1
-            if isinstance(base, Field) and base.kind == "index" and base.comps == 2 and c in (0, 1):
+            if isinstance(base, Field) and base.kind == "index" and isinstance(c, int) and 0 <= c < base.comps:
                 return Idx(f"{base.name}{c}", base.space, "site")
             if isinstance(base, (Vec2,)) and c in (0, 1):
                 return base.x if c == 0 else base.y
@@ -1040,6 +1044,8 @@ class Interp:
                 raise Unsupported("mean over axis of a field")
         if isinstance(recv, (Vec2, Cols)) and name in ("squeeze", "copy"):
             return recv
+        if isinstance(recv, Vec2) and name == "sum" and kwargs.get("axis") == 1:
+            return recv.x + recv.y
         if isinstance(recv, Pair) and name == "mean" and kwargs.get("axis") == 1:
             half = Rat.const(self.T, Fr(1, 2))
             return Vec2((recv.p0.x + recv.p1.x) * half, (recv.p0.y + recv.p1.y) * half)
